@@ -600,6 +600,18 @@ def LorNA.cylOfKind (l : LorNA) (k : LorKind) : LorCyl :=
   | .rev | .cylrev => l.toCyl.reverse
   | _ => l.toCyl
 
+/-- sinogram coordinates with `s` → with the angle `β = asin(s/R)/π` that belongs to `s` (supplied by the caller) -/
+def LorS.withBeta (l : LorS) (beta : Rat) : LorNA := ⟨l.z1, l.z2, l.phi, beta, l.swapped⟩
+
+/-- … and back, `s = R sin β`: the angle is the supplied one (then `s`) or its opposite (then `-s`) -/
+def LorNA.withS (n : LorNA) (beta s : Rat) : LorS := ⟨n.z1, n.z2, n.phi, if n.beta = beta then s else -s, n.swapped⟩
+
+/-- `ProjDataInfoCylindricalArcCorr::get_bin` of the LOR `l` (with `β = asin(s/R)/π`) handed over as `kind`:
+    cylinder coordinates and points are converted with `get_sino_coords`, sinogram coordinates are copied -/
+def ArcGeom.getBinVia (fixDir fixWrap : Bool) (g : ArcGeom) (k : LorKind) (l : LorS) (beta dt : Rat) : Option Bin :=
+  if k.viaCylinder then g.getBinCore fixWrap ((((l.withBeta beta).cylOfKind k).toNA fixDir).withS beta l.s) dt
+  else g.getBinCore fixWrap (if k.reversed then { l with swapped := !l.swapped } else l) dt
+
 /-- `get_bin ∘ (representation change) ∘ get_LOR` for non-arc-corrected data -/
 def CylGeom.roundTripVia (g : CylGeom) (tilt : Rat) (k : LorKind) (b : Bin) : List RtResult :=
   match g.lorOf tilt b with
